@@ -39,9 +39,9 @@ def cases(tier, seed):
     out = []
     for u in (0, 1):
         for li in range(len(LABELS)):
-            for rU in (1, 2):
-                for rV in (1, 2):
-                    for init in (0, 1, 2, "pattern"):
+            for rU in ((1, 2) if tier == "quick" else (1, 2, 3)):
+                for rV in ((1, 2) if tier == "quick" else (1, 2, 3)):
+                    for init in ((0, 1, 2, "pattern") if tier == "quick" else (0, 1, 2, 3, 4, 5, "pattern")):
                         if tier == "quick" and ((rU + rV + (init if isinstance(init, int) else 3) + li) % 2):
                             continue
                         out.append(dict(ubm=u, labels=li, rU=rU, rV=rV, init=init, K=K_IT[tier], seed=seed))
